@@ -891,3 +891,62 @@ package hermes
 //@   invariant strict: forall(k, 1, \i, g.EINTE[k] < g.EINTE[k+1])
 //@   invariant firstfree: forall(k, 2, \i+1, g.EINTE[k] == max(old(g.EINTE[k]), g.EINTE[k-1]+1))
 //@   invariant rest: g.EINTE[0] == old(g.EINTE[0]) && g.EINTE[1] == old(g.EINTE[1]) && forall(k, \i+1, 201, g.EINTE[k] == old(g.EINTE[k]))
+
+// fertilisation of the day (manual schedule): applied iff due (the day after the scheduled date, first sub-step), in the
+// amounts of the schedule entry under the cursor, cursor advanced by one; otherwise nothing changes.
+//@ region Nitro#fert from "if !g.AUTOFERT {" to "if !g.AUTOFERT {"
+//@   serves C10, C07, C16
+//@   define cur() = old(g.NDG.Index)
+//@   define due() = !g.AUTOFERT && zeit == old(g.ZTDG[g.NDG.Index]) + 1 && subd == 1
+//@   requires cursor: 0 <= g.NDG.Index && g.NDG.Index < 299 && g.NDG.Num == real(g.NDG.Index + g.NDG.Offset)
+//@   requires crop: 1 <= g.AKF.Index && g.AKF.Index < 299
+//@   requires day: 4 <= g.TAG.Index && g.TAG.Index < 366
+//@   ensures[C10] applied: due() ==> g.NFOS[0] == old(g.NFOS[0]) + old(g.NSAS[g.NDG.Index]) && g.NAOS[0] == old(g.NAOS[0]) + old(g.NLAS[g.NDG.Index]) && g.DSUMM == old(g.DSUMM) + old(g.NDIR[g.NDG.Index]) && g.NH4Sum == old(g.NH4Sum) + old(g.NH4N[g.NDG.Index]) && g.NFERTSIM == old(g.NFERTSIM) + old(g.NDIR[g.NDG.Index])
+//@   ensures[C10] advanced: due() ==> g.NDG.Index == cur() + 1
+//@   ensures[C10] notdue: !g.AUTOFERT && !due() ==> unchanged(g.NFOS, g.NAOS, g.DSUMM, g.NH4Sum, g.NFERTSIM, g.NDG.Index)
+//@   ensures[C10] schedule: !g.AUTOFERT ==> unchanged(g.ZTDG, g.NSAS, g.NLAS, g.NDIR, g.NH4N)
+//@   ensures[C10,C07] otherlayers: !g.AUTOFERT ==> forall(k, 1, 21, g.NFOS[k] == old(g.NFOS[k]) && g.NAOS[k] == old(g.NAOS[k])) && unchanged(g.C1)
+//@   ensures[C16] autononneg: g.AUTOFERT && (forall(k, 0, 300, g.NDIR[k] >= 0)) ==> g.DSUMM >= old(g.DSUMM) && g.NFERTSIM >= old(g.NFERTSIM)
+
+// tillage of the day: when due the pools are mixed evenly down to the tillage depth, which preserves their sums
+//@ region Nitro#tillage from "if zeit == g.EINTE[g.NTIL.Index+1]+1 && subd == 1 {" to "if zeit == g.EINTE[g.NTIL.Index+1]+1 && subd == 1 {"
+//@   serves C10, C07
+//@   define due() = zeit == old(g.EINTE[g.NTIL.Index+1]) + 1 && subd == 1
+//@   define depth() = old(g.EINT[g.NTIL.Index])
+//@   define mix() = ite(depth() > 0, real(floor(depth()/10 + 0.5)), 0.0)
+//@   requires cursor: 0 <= g.NTIL.Index && g.NTIL.Index < 199 && g.NTIL.Num == real(g.NTIL.Index + g.NTIL.Offset)
+//@   requires units: g.DZ.Num == 10
+//@   requires depthcap: g.EINT[g.NTIL.Index] < 45
+//@   requires nonneg: forall(k, 0, 4, g.C1[k] >= 0)
+//@   ensures[C10] advanced: due() ==> g.NTIL.Index == old(g.NTIL.Index) + 1
+//@   ensures[C10] notdue: !due() ==> unchanged(g.NFOS, g.NAOS, g.MINFOS, g.MINAOS, g.C1, g.NTIL.Index)
+//@   ensures[C07] fastsum: sum(z, 0, floor(mix()), 4, g.NFOS[z] + g.MINFOS[z]) == sum(z, 0, floor(mix()), 4, old(g.NFOS[z]) + old(g.MINFOS[z]))
+//@   ensures[C07] slowsum: sum(z, 0, floor(mix()), 4, g.NAOS[z] + g.MINAOS[z]) == sum(z, 0, floor(mix()), 4, old(g.NAOS[z]) + old(g.MINAOS[z]))
+//@   ensures[C07] mineralsum: sum(z, 0, floor(mix()), 4, g.C1[z]) == sum(z, 0, floor(mix()), 4, old(g.C1[z]))
+//@   ensures[C07] below: forall(k, 4, 21, g.NFOS[k] == old(g.NFOS[k]) && g.NAOS[k] == old(g.NAOS[k]) && g.C1[k] == old(g.C1[k]))
+//@   ensures[C10] schedule: unchanged(g.EINTE, g.EINT)
+//@ loop Nitro@"for z := 0; z < int(mixtief); z++ { // Vollstaendige"
+//@   invariant range: 0 <= \i && \i <= int(mixtief) && 0 <= int(mixtief) && int(mixtief) <= 4 && mixtief == real(int(mixtief))
+//@   invariant sums: NFOSUM == sum(z, 0, \i, 4, g.NFOS[z]) && NAOSUM == sum(z, 0, \i, 4, g.NAOS[z]) && nmifosum == sum(z, 0, \i, 4, g.MINFOS[z]) && nmiaosum == sum(z, 0, \i, 4, g.MINAOS[z]) && CSUM == sum(z, 0, \i, 4, g.C1[z])
+//@ loop Nitro@"for z := 0; z < int(mixtief); z++ { g.NFOS[z] = NFOSUM / mixtief"
+//@   invariant range: 0 <= \i && \i <= int(mixtief)
+//@   invariant mixed: forall(z, 0, \i, g.NFOS[z] == NFOSUM/mixtief && g.NAOS[z] == NAOSUM/mixtief && g.MINFOS[z] == nmifosum/mixtief && g.MINAOS[z] == nmiaosum/mixtief && g.C1[z] == CSUM/mixtief)
+//@   invariant rest: forall(z, \i, 21, g.NFOS[z] == pre(g.NFOS[z]) && g.NAOS[z] == pre(g.NAOS[z]) && g.C1[z] == pre(g.C1[z])) && forall(z, \i, 4, g.MINFOS[z] == pre(g.MINFOS[z]) && g.MINAOS[z] == pre(g.MINAOS[z]))
+//@   invariant csum: CSUM >= 0
+
+// Exactly once, on time: with a strictly ascending schedule (Input#fertshift / Input#tillshift), "applied iff the day equals
+// the date under the cursor (+ lag), cursor + 1" (Nitro#fert, Nitro#tillage, Run$1#irrigation) keeps the invariant
+// "the event under the cursor is not in the past"; hence every event is applied, exactly when the day reaches its date.
+// (induction step over days; t = day, s0 = date under the cursor, s1 = next date, lag = 1 for fertiliser/tillage, 0 for irrigation)
+//@ lemma C10-exactly-once
+//@   serves C10
+//@   var t int
+//@   var s0 int
+//@   var s1 int
+//@   var lag int
+//@   assume 0 <= lag && lag <= 1
+//@   assume t <= s0 + lag
+//@   assume s0 < s1
+//@   prove applied: t == s0 + lag ==> t + 1 <= s1 + lag
+//@   prove waiting: t != s0 + lag ==> t + 1 <= s0 + lag
+//@   prove ontime: t == s0 + lag ==> t >= s0 && t <= s0 + 1
